@@ -1,6 +1,7 @@
 """C01 — space packet primary header.  Streams, implementation adapter, oracle."""
 import itertools
 from spacepackets.ccsds import spacepacket as sp
+from harness import core
 
 ID = "C01"
 ENUMS = [
@@ -27,26 +28,50 @@ TRUSTED = []
 
 
 def _ptype(t):
-    return sp.PacketType(t) if t in (0, 1) else t
+    # the library's enum member - or, for every fifth case of a stream, the equal plain int ("0 for Telemetery, 1 for
+    # Telecommands" as the constructor documents)
+    return core.enum_or_int(sp.PacketType, t)
 
 
 def _flags(f):
-    return sp.SequenceFlags(f) if f in (0, 1, 2, 3) else f
+    return core.enum_or_int(sp.SequenceFlags, f)
+
+
+def _b(s):
+    if s in (0, 1):
+        return int(s) if core.PLAIN_INTS else bool(s)
+    return s
 
 
 def _hdr(l):
+    # core.build: by keyword, and for every seventh case of a stream positionally in the documented order
     t, a, c, d, s, f, v = l
-    return sp.SpacePacketHeader(packet_type=_ptype(t), apid=a, seq_count=c, data_len=d,
-                                sec_header_flag=bool(s) if s in (0, 1) else s, seq_flags=_flags(f), ccsds_version=v)
+    return core.build(sp.SpacePacketHeader, packet_type=_ptype(t), apid=a, seq_count=c, data_len=d,
+                      sec_header_flag=_b(s), seq_flags=_flags(f), ccsds_version=v)
+
+
+def _pid(t, s, ap):
+    return core.build(sp.PacketId, ptype=_ptype(t), sec_header_flag=_b(s), apid=ap)
+
+
+def _psc(f, c):
+    return core.build(sp.PacketSeqCtrl, seq_flags=_flags(f), seq_count=c)
+
+
+def _fcall(key, fn, names, *vals):
+    """module-level helper functions: called positionally as documented, and by the documented parameter names for every
+    third case (chosen from the case's own numbers, so that a replay makes the same call)"""
+    if key % 3 == 0 and not core.POSITIONAL:
+        return fn(**dict(zip(names, vals)))
+    return fn(*vals)
+
+
+def _spkt(h, sec, ud):
+    return core.build(sp.SpacePacket, sp_header=h, sec_header=sec, user_data=ud)
 
 
 def _fields(h):
     return [h.ccsds_version, int(h.packet_type), int(h.sec_header_flag), h.apid, int(h.seq_flags), h.seq_count, h.data_len]
-
-
-
-def _b(s):
-    return bool(s) if s in (0, 1) else s
 
 
 def _row(fn):
@@ -65,14 +90,15 @@ def _view(h):
 
 
 def _fresh_hdr(h):
-    return sp.SpacePacketHeader(packet_type=h.packet_type, apid=h.apid, seq_count=h.seq_count, data_len=h.data_len,
-                                sec_header_flag=h.sec_header_flag, seq_flags=h.seq_flags, ccsds_version=h.ccsds_version)
+    return core.build(sp.SpacePacketHeader, packet_type=h.packet_type, apid=h.apid, seq_count=h.seq_count, data_len=h.data_len,
+                      sec_header_flag=h.sec_header_flag, seq_flags=h.seq_flags, ccsds_version=h.ccsds_version)
 
 
 def _eq_fresh(h):
     fresh = _fresh_hdr(h)
     e1 = h == fresh; e2 = fresh == h
-    comp = sp.SpacePacketHeader.from_composite_fields(h.packet_id, h.packet_seq_control, h.data_len, h.ccsds_version)
+    comp = core.build(sp.SpacePacketHeader.from_composite_fields, packet_id=h.packet_id, psc=h.packet_seq_control,
+                      data_length=h.data_len, packet_version=h.ccsds_version)
     e3 = h == comp; e4 = comp == h
     return [e1, e2, e3, e4]
 
@@ -120,8 +146,8 @@ def _part(l, as_bytearray):
 
 
 def _spkt_eq_fresh(p):
-    q = sp.SpacePacket(_fresh_hdr(p.sp_header), None if p.sec_header is None else bytes(p.sec_header),
-                       None if p.user_data is None else bytearray(p.user_data))
+    q = _spkt(_fresh_hdr(p.sp_header), None if p.sec_header is None else bytes(p.sec_header),
+              None if p.user_data is None else bytearray(p.user_data))
     e1 = p == q; e2 = q == p
     return [e1, e2, p == q, q == p]
 
@@ -134,35 +160,35 @@ def impl(op, a):
     if op == 102:
         h = sp.SpacePacketHeader.unpack(bytes(a[0])); return [_fields(h), [h.packet_len]]
     if op == 103:
-        t, s, ap = a[0]; return [[sp.PacketId(_ptype(t), bool(s) if s in (0, 1) else s, ap).raw()]]
+        t, s, ap = a[0]; return [[_pid(t, s, ap).raw()]]
     if op == 104:
         p = sp.PacketId.from_raw(a[0][0]); return [[int(p.ptype), int(p.sec_header_flag), p.apid]]
     if op == 105:
-        f, c = a[0]; return [[sp.PacketSeqCtrl(_flags(f), c).raw()]]
+        f, c = a[0]; return [[_psc(f, c).raw()]]
     if op == 106:
         p = sp.PacketSeqCtrl.from_raw(a[0][0]); return [[int(p.seq_flags), p.seq_count]]
     if op == 107:
-        t, s, ap, v = a[0]; b1, b2 = sp.get_space_packet_id_bytes(_ptype(t), bool(s) if s in (0, 1) else s, ap, v); return [[b1, b2]]
+        t, s, ap, v = a[0]; b1, b2 = _fcall(ap + v, sp.get_space_packet_id_bytes, ("packet_type", "secondary_header_flag", "apid", "version"), _ptype(t), _b(s), ap, v); return [[b1, b2]]
     if op == 108:
-        t, s, ap = a[0]; return [[sp.get_sp_packet_id_raw(_ptype(t), bool(s) if s in (0, 1) else s, ap)]]
+        t, s, ap = a[0]; return [[_fcall(ap, sp.get_sp_packet_id_raw, ("packet_type", "secondary_header_flag", "apid"), _ptype(t), _b(s), ap)]]
     if op == 109:
-        f, c = a[0]; return [[sp.get_sp_psc_raw(_flags(f), c)]]
+        f, c = a[0]; return [[_fcall(c, sp.get_sp_psc_raw, ("seq_flags", "seq_count"), _flags(f), c)]]
     if op == 110:
-        return [[sp.get_apid_from_raw_space_packet(bytearray(a[0]) if len(a[0]) % 2 else bytes(a[0]))]]
+        return [[_fcall(sum(a[0]), sp.get_apid_from_raw_space_packet, ("raw_packet",), bytearray(a[0]) if len(a[0]) % 2 else bytes(a[0]))]]
     if op == 111:
-        return [[sp.get_total_space_packet_len_from_len_field(a[0][0])]]
+        return [[_fcall(a[0][0], sp.get_total_space_packet_len_from_len_field, ("len_field",), a[0][0])]]
     if op == 112:
         h = _hdr(a[0])
         sec = bytes(a[1][1:]) if a[1] and a[1][0] else None
         ud = bytes(a[2][1:]) if a[2] and a[2][0] else None
-        return [list(sp.SpacePacket(h, sec, ud).pack())]
+        return [list(_spkt(h, sec, ud).pack())]
     if op == 113:
         return [list(sp.SpacePacketHeader.unpack(bytes(a[0])).pack())]
     if op == 114:
         h = _hdr(a[0])
         sec = _part(a[1], a[3][0]); ud = _part(a[2], a[3][1])
         keep = [(x, bytes(x)) for x in (sec, ud) if x is not None]
-        p = sp.SpacePacket(h, sec, ud)
+        p = _spkt(h, sec, ud)
         b1 = p.pack(); c1 = bytes(b1)
         b1.extend(b"\x00\x01")           # the caller edits what it got back
         b2 = p.pack()
@@ -172,11 +198,11 @@ def impl(op, a):
         t, ap, c, d, s, f, v = l
         pid = psc = None
         if kind == 1:
-            pid = sp.PacketId(_ptype(t), _b(s), ap); psc = sp.PacketSeqCtrl(_flags(f), c)
+            pid = _pid(t, s, ap); psc = _psc(f, c)
             if v == 0:
-                h = sp.SpacePacketHeader.from_composite_fields(pid, psc, d)
+                h = core.build(sp.SpacePacketHeader.from_composite_fields, packet_id=pid, psc=psc, data_length=d)
             else:
-                h = sp.SpacePacketHeader.from_composite_fields(pid, psc, d, v)
+                h = core.build(sp.SpacePacketHeader.from_composite_fields, packet_id=pid, psc=psc, data_length=d, packet_version=v)
         elif kind == 2:
             h = sp.SpacePacketHeader.unpack(bytearray(_hdr(l).pack()) + b"\xa5\x5a")
         else:
@@ -203,7 +229,7 @@ def impl(op, a):
         h = _hdr(a[0])
         sec = _part(a[1], a[3][0]); ud = _part(a[2], a[3][1])
         keep = [(x, bytes(x)) for x in (sec, ud) if x is not None]
-        p = sp.SpacePacket(h, sec, ud)
+        p = _spkt(h, sec, ud)
         rows = []
         for o in a[4:]:
             k = o[0] if o else 9
@@ -229,22 +255,22 @@ def impl(op, a):
         k0, m, o = a[0], a[1], a[2]
         if op == 124:
             p = sp.PacketId.from_raw(k0[1]) if k0[0] == 1 else sp.PacketId.empty() if k0[0] == 2 else \
-                sp.PacketId(_ptype(k0[1]), _b(k0[2]), k0[3])
+                _pid(k0[1], k0[2], k0[3])
             if m[0]:
                 p.ptype = _ptype(m[1])
             if m[2]:
                 p.sec_header_flag = _b(m[3])
             if m[4]:
                 p.apid = m[5]
-            q = sp.PacketId(_ptype(o[0]), _b(o[1]), o[2])
+            q = _pid(o[0], o[1], o[2])
         else:
             p = sp.PacketSeqCtrl.from_raw(k0[1]) if k0[0] == 1 else sp.PacketSeqCtrl.empty() if k0[0] == 2 else \
-                sp.PacketSeqCtrl(_flags(k0[1]), k0[2])
+                _psc(k0[1], k0[2])
             if m[0]:
                 p.seq_flags = _flags(m[1])
             if m[2]:
                 p.seq_count = m[3]
-            q = sp.PacketSeqCtrl(_flags(o[0]), o[1])
+            q = _psc(o[0], o[1])
         return [[p.raw(), int(p == q), int(q == p), int(p == 17)]]
     raise RuntimeError("bad op")
 
@@ -308,6 +334,7 @@ def streams(tier, rng):
     for ap, c in itertools.product(aps, cts):
         cases.append((103, [[1, 1, ap]])); cases.append((105, [[3, c]]))
         cases.append((108, [[0, 1, ap]])); cases.append((109, [[2, c]]))
+    rng.shuffle(cases)      # calling style (plain ints every 5th, positional every 7th case) must not align with the loops
     yield "ctor_boundaries", "exact", cases
     # 4. random full headers: pack, and all pairwise boundary combinations
     n = 100000 if big else 15000
@@ -504,19 +531,68 @@ def in_range(l):
     return 0 <= a <= 2047 and 0 <= c <= 16383 and 0 <= d <= 65535
 
 
+# ---- refusals: the exception CLASS is part of the property ("refused with ValueError")
+_UNDOC = set(core.UNDOCUMENTED) | {97}
+_ROW_OPS = (120, 121, 122, 123)          # ops whose result rows can be [1, exception class] themselves
+ENTRY = {100: "SpacePacketHeader.__init__", 101: "SpacePacketHeader.pack", 102: "SpacePacketHeader.unpack",
+         103: "PacketId.__init__", 104: "PacketId.from_raw", 105: "PacketSeqCtrl.__init__", 106: "PacketSeqCtrl.from_raw",
+         107: "get_space_packet_id_bytes", 108: "get_sp_packet_id_raw", 109: "get_sp_psc_raw",
+         110: "get_apid_from_raw_space_packet", 111: "get_total_space_packet_len_from_len_field", 112: "SpacePacket.pack",
+         113: "SpacePacketHeader.unpack-pack", 114: "SpacePacket.pack", 120: "SpacePacketHeader.history",
+         121: "SpacePacketHeader.unpack", 122: "SpacePacketHeader.unpack", 123: "SpacePacket.history", 124: "PacketId",
+         125: "PacketSeqCtrl"}
+
+
+def _undoc_rows(op, ires):
+    """positions of the result at which the implementation escaped with an undocumented exception class"""
+    out = []
+    if ires and len(ires[0]) == 2 and ires[0][0] == 1 and ires[0][1] in _UNDOC:
+        out.append(0)
+    elif op in _ROW_OPS:
+        out += [i for i, r in enumerate(ires) if i and len(r) == 2 and r[0] == 1 and r[1] in _UNDOC]
+    return out
+
+
 def oracle_spec(case, ires):
     op, a = case
+    out = []
     if op == 101 and in_range(a[0]) and 0 <= a[0][6] < 8:
         t, ap, c, d, s, f, v = a[0]
-        return [(150, [[v, t, s, ap, f, c, d]])]
-    if op == 102 and ires[0] == [0]:
-        return [(150, [ires[1]])]
-    return []
+        out = [(150, [[v, t, s, ap, f, c, d]])]
+    elif op == 102 and ires[0] == [0]:
+        out = [(150, [ires[1]])]
+    if _undoc_rows(op, ires):
+        out.append((op, a))     # what the faithful model of the unchanged code does on the very same call (always last)
+    return out
+
+
+def oracle_undocumented(op, a, ires, sres):
+    """Every refusal the property speaks of is a ValueError.  The unchanged code escapes with struct.error / TypeError
+    in a few places the constructor does not validate (e.g. version 8 in pack()); those are mirrored statement by
+    statement in the model.  An undocumented exception class at a position where the model of the unchanged code
+    answers anything else (a ValueError, a value) is a refusal of the wrong class."""
+    und = _undoc_rows(op, ires)
+    if not und:
+        return None
+    model = sres[-1] if sres else None
+    for i in und:
+        m = model[i] if model is not None and i < len(model) else (model[0] if model and model[0][:1] == [1] else None)
+        if m != ires[i]:
+            what = "raises" if i == 0 else "observation %d raises" % i
+            return ("C01/%s/undocumented-exception-class" % ENTRY.get(op, "op%d" % op),
+                    "%s %s where the property prescribes %s: args %s" % (
+                        what, core.ERR_NAMES.get(ires[i][1], ires[i][1]),
+                        "ValueError" if m and m[:1] == [1] and m[1] in (1, 2, 3) else "the model's answer %s" % (m,),
+                        str([list(x)[:12] for x in a])[:300]))
+    return None
 
 
 def oracle(case, ires, sres):
     """The property itself, evaluated on the implementation's observable behaviour."""
     op, a = case
+    r = oracle_undocumented(op, a, ires, sres)
+    if r is not None:
+        return r
     err = ires[0][0] == 1
     code = ires[0][1] if err else None
     if op in (100, 101):
